@@ -6,11 +6,12 @@ import time
 from ..core import Result
 from .. import mailbox_corr as mc
 from . import c14
+from . import c18_observer
 from ..worlds.mailbox import World
 
 ID = "C18"
 MODEL = "CLIENT"
-PROP_MODULES = ["WV.Props.C18"]
+PROP_MODULES = ["WV.Props.C18", "WV.Props.C18obs"]
 NATIVE_DECIDE_MODULES = ["WV.Proofs.ClientCert"]
 TRUSTED = c14.TRUSTED + ["Deferred chaining of Twisted (observers' callbacks run through the real EventualQueue)"]
 RULE = ("(a) guided random schedules as for C14 with per-step comparison against the Lean model; (b) two-client runs "
@@ -53,6 +54,7 @@ def cases(rng, tier):
     for _ in range(m):
         out.append(dict(kind="pair", seed=rng.randrange(10**9), fifo=rng.random() < 0.5,
                         match=rng.random() < 0.75, nmsg=rng.randrange(0, 4), drops=rng.random() < 0.4))
+    out += c18_observer.obs_cases(rng, tier)
     return out
 
 
@@ -150,6 +152,8 @@ def run_pair(case):
 
 
 def run_case(case):
+    if case.get("kind") == "obs":
+        return c18_observer.run_obs_case(case)
     if case.get("kind") == "pair":
         r = run_pair(case)
         r.expect = []
@@ -169,6 +173,9 @@ def run_case(case):
 
 
 def shrink(case):
+    if case.get("kind") == "obs":
+        yield from c18_observer.shrink_obs(case)
+        return
     if case.get("kind") == "pair":
         if case["nmsg"] > 0:
             c = dict(case)
